@@ -9,7 +9,9 @@ from rconn import constants, RES
 PID = "C06"
 HEADER = ("From ZV Require Import Common.Exec Framing.ReadConn Framing.ReadConnExec Framing.Chain "
           "Framing.ChainExec.\nOpen Scope N_scope.\n")
-KIND = {"okc": 0, "ok": 1, "merr": 2}
+# a standard org.varlink.service error is the error reply of ONE call (the property's "or its error"), like a
+# declared method error: it ends that call's replies, not the chain's
+KIND = {"okc": 0, "ok": 1, "merr": 2, "vs": 2}
 
 
 def reply_frames(rng, flags, target, conts=None):
@@ -21,8 +23,8 @@ def reply_frames(rng, flags, target, conts=None):
         if f == "more":
             for _ in range(rng.choice([0, 0, 1, 2, 3]) if conts is None else conts):
                 out.append(fg.jb({"parameters": {"id": rng.randrange(0, 999)}, "continues": True}))
-        end = rng.choice(["ok", "ok", "okf", "err", "errp", "noparams"] if target == "value" else
-                         ["ok", "ok", "okf", "err", "errp"])
+        end = rng.choice(["ok", "ok", "okf", "err", "errp", "svc", "noparams"] if target == "value" else
+                         ["ok", "ok", "okf", "err", "errp", "svc"])
         if end == "ok":
             out.append(fg.jb({"parameters": {"id": rng.randrange(0, 999)}}))
         elif end == "okf":
@@ -31,6 +33,12 @@ def reply_frames(rng, flags, target, conts=None):
             out.append(fg.jb({"error": "org.example.Busy"}))
         elif end == "errp":
             out.append(fg.jb({"error": "org.example.NotFound", "parameters": {"id": 4}}))
+        elif end == "svc":
+            out.append(fg.jb(rng.choice([
+                {"error": "org.varlink.service.MethodNotFound", "parameters": {"method": "org.example.Get"}},
+                {"error": "org.varlink.service.PermissionDenied"},
+                {"error": "org.varlink.service.InvalidParameter", "parameters": {"parameter": "id"}},
+                {"error": "org.varlink.service.ExpectedMore", "parameters": {}}])))
         else:
             out.append(fg.jb({}))
     return out
@@ -105,7 +113,7 @@ def gen_cases(ck, limit, step):
         flags = [rng.choice(["plain", "oneway", "more", "both"]) for _ in range(n)]
         target = rng.choice(["typed", "value"])
         frames = reply_frames(rng, flags, target)
-        mode = rng.choice(["short", "garbage", "service_error", "extra_cont"])
+        mode = rng.choice(["short", "garbage", "extra_cont"])
         if mode == "short" and frames:
             frames = frames[:-1]
         elif mode == "garbage":
@@ -266,9 +274,9 @@ def main():
                            "events": len(c["events"]), "after": c["after"]})
     ck.assumptions += [
         "decode(frame)/kind(frame) come from decoding the isolated frame with the same types (serde_json::from_slice)",
-        "a service-level error reply (org.varlink.service.*) or an undecodable reply ends the stream early (the code "
-        "treats them as fatal); the property quantifies over conforming scripts (success / declared error / "
-        "continuing replies), so these are compared with the model only",
+        "an undecodable reply or a transport error ends the stream early (the code treats them as fatal); the property "
+        "quantifies over conforming scripts (success / declared error / standard service error / continuing replies), "
+        "so scripts with undecodable frames are compared with the model only",
     ]
     ck.finish(rule="a case = (flag sequence of the chain, reply script incl. trailing frames, chunking); "
                    "non-trivial = chains of at least two calls")
